@@ -13,6 +13,7 @@ RULE = ("call sequences over the configuration alphabet on fresh RF24 objects: a
         "each sequence ends with a with-block re-entry coherence probe. A case is non-trivial "
         "when at least one register write or exception was observed; distinct = distinct "
         "(chip variant, SPI flavour, call sequence with arguments, polling mode).")
+RULE += (" Later rounds added: print_details()/print_pipes() as pure readers and argument types outside the documented forms.")
 REQUIRED = {"snapshot_compare": 5000, "getter_compare": 5000, "coherence_probe": 500,
             "sanitizer_scan": 5000, "exception_compare": 200}
 ASSUMPTIONS = ["admitted alternatives: pa_level invalid -> ValueError or 0dBm+LNA; crc<0 -> "
